@@ -38,6 +38,15 @@ type Tape struct {
 	GraceS   int64   `json:"grace_s,omitempty"` // the KDC's allowance for expired tickets in a TGS-REQ (RFC 4120 3.2.3)
 	PreLogin bool    `json:"prelogin"`
 	Tasks    []TaskT `json:"tasks"`
+	// Outage: from AtNs on, for ForNs, no server can be reached by connections dialled in that stretch
+	// (refused, or the request is processed and the reply lost); both kinds fail fast
+	Outage *Outage `json:"outage,omitempty"`
+}
+
+type Outage struct {
+	AtNs  int64  `json:"at_ns"`
+	ForNs int64  `json:"for_ns"`
+	Kind  string `json:"kind"` // refuse | close
 }
 
 // uniqueSPN is the service only task i asks for.
@@ -51,7 +60,7 @@ func Meta() core.Meta {
 		Rule:        "case = one run under the race detector: 2-16 tasks share one client and one configuration and issue 1-8 operations each (service tickets for a pool of 1-6 SPNs incl. a foreign-realm one, login, affirm, cached look-ups, KDC / kpasswd resolution, realm resolution, diagnostics, occasionally destroy) while the library's renewal goroutines fire (ticket lives of 30-600 simulated seconds); the seeded fake-time scheduler picks every interleaving at lock, network and workload boundaries; distinct = distinct interleaving hash (ordered sequence of (task, site) events); non-trivial = at least two tasks interleaved inside operations (context switches > tasks)",
 		SeededQuick: 2000, SeededThorough: 60000,
 		Race:           true,
-		WorkloadProbes: []string{"same-spn-by-several-tasks", "renewal-during-run", "concurrent-getkdcs", "login-while-others-request", "destroy-while-others-request"},
+		WorkloadProbes: []string{"same-spn-by-several-tasks", "renewal-during-run", "concurrent-getkdcs", "login-while-others-request", "destroy-while-others-request", "operation-during-outage", "operation-after-outage"},
 		Components: map[string]string{
 			"client.Client (sessions, cache, settings, credentials), config.Config (GetKDCs, GetKpasswdServers, ResolveRealm), renewal goroutines, exchanges, network code": "real, built with -race",
 			"sync in client/session.go, client/cache.go": "shim (TryLock loop; happens-before edges are only the program's own)",
@@ -209,6 +218,16 @@ func Gen(caseID, tier string) (json.RawMessage, error) {
 			t.Ops = append(t.Ops, o)
 		}
 		tp.Tasks = append(tp.Tasks, t)
+	}
+	if r.Chance(1, 4) {
+		// a network outage while the tasks are at work: error paths run next to the ordinary ones
+		// (a failing renewal or login beside requests that hold or wait for the session locks)
+		life := tp.LifeS * 1_000_000_000
+		at := int64(r.Range(0, int(tp.LifeS))) * 1_000_000_000
+		if r.Chance(1, 2) {
+			at = life*5/6 - int64(r.Range(0, 2000))*1_000_000 // begins up to 2 s before the renewal point of the first TGT
+		}
+		tp.Outage = &Outage{AtNs: at + int64(r.Range(0, 999_999)), ForNs: []int64{50_000_000, 1_000_000_000, life / 3, life * 12 / 10}[r.Intn(4)], Kind: r.Pick("refuse", "refuse", "close")}
 	}
 	if tp.NKDC > 1 && r.Chance(1, 4) {
 		// the realm's servers come in two blocks of the same name (krb5.conf merges them): what
